@@ -833,7 +833,7 @@ func runL2(s *l2Scn, probe bool) *vtrace.Trace {
 		x.mu.Lock()
 		for _, mk := range x.marks {
 			if mk == i && i > 0 {
-				evs = append(evs, vtrace.Event{"ev": "op", "name": "seek", "tc": x.tr[log[i-1].Seq]})
+				evs = append(evs, vtrace.Event{"ev": "lseek", "tc": x.tr[log[i-1].Seq]})
 			}
 		}
 		ta, okA := x.ta[rq.Seq]
